@@ -62,22 +62,28 @@ theorem rotateRight_root {h h' : Heap K V} {lid rid : Nat} (hs : h.rotateRight l
   | none => simp at h8; subst h8; exact c1
   | some c => exact (setParents_root _ _ h8).trans c1
 
+theorem rotCall_root {h h' : Heap K V} {call : Option (Gen.Tree.Callee × Gen.Tree.NodeArg × Gen.Tree.NodeArg)}
+    {xid : Nat} {left right : Option Nat} (hs : Heap.rotCall h call xid left right = some h') : h'.root = h.root := by
+  unfold Heap.rotCall at hs
+  split at hs
+  · exact rotateLeft_root hs
+  · exact rotateRight_root hs
+  · cases hs
+
 theorem steal_root {h : Heap K V} {xid : Nat} {r : Heap K V × Bool} (hs : h.steal xid = some r) : r.1.root = h.root := by
   unfold Heap.steal at hs
   simp only [bind, pure] at hs
   obtain ⟨lr, h1, hs⟩ := Option.bind_eq_some_iff.mp hs
   obtain ⟨rn, h2, hs⟩ := Option.bind_eq_some_iff.mp hs
   split at hs
-  · obtain ⟨r', h3, hs⟩ := Option.bind_eq_some_iff.mp hs
-    obtain ⟨ha, h4, hs⟩ := Option.bind_eq_some_iff.mp hs
+  · obtain ⟨ha, h4, hs⟩ := Option.bind_eq_some_iff.mp hs
     simp at hs; subst hs
-    exact rotateLeft_root h4
+    exact rotCall_root h4
   · obtain ⟨ln, h3, hs⟩ := Option.bind_eq_some_iff.mp hs
     split at hs
-    · obtain ⟨l, h4, hs⟩ := Option.bind_eq_some_iff.mp hs
-      obtain ⟨ha, h5, hs⟩ := Option.bind_eq_some_iff.mp hs
+    · obtain ⟨ha, h5, hs⟩ := Option.bind_eq_some_iff.mp hs
       simp at hs; subst hs
-      exact rotateRight_root h5
+      exact rotCall_root h5
     · simp at hs; subst hs
       rfl
 
@@ -97,7 +103,7 @@ theorem steal_right {h h' : Heap K V} {xid r : Nat} {left : Option Nat} {rn : In
     (hst : Gen.Tree.stealRight true rn = true) (hrot : Heap.rotateLeft h xid r = some h') :
     Heap.steal h xid = some (h', true) := by
   unfold Heap.steal
-  simp only [bind, pure, hsib, hn, Option.bind_some, Option.isSome_some, hst, if_true, hrot]
+  simp only [bind, pure, hsib, hn, Option.bind_some, Option.isSome_some, hst, if_true, rotCall_stealRight, hrot]
 
 theorem steal_left {h h' : Heap K V} {xid l : Nat} {right : Option Nat} {rn ln : Int}
     (hsib : Heap.siblings h xid = some (some l, right)) (hn : Heap.nOf h right = some rn)
@@ -105,7 +111,7 @@ theorem steal_left {h h' : Heap K V} {xid l : Nat} {right : Option Nat} {rn ln :
     (hstl : Gen.Tree.stealLeft true ln = true) (hrot : Heap.rotateRight h l xid = some h') :
     Heap.steal h xid = some (h', true) := by
   unfold Heap.steal
-  simp only [bind, pure, hsib, hn, Option.bind_some, hst, hnl, Option.isSome_some, hstl, if_true, hrot]
+  simp only [bind, pure, hsib, hn, Option.bind_some, hst, hnl, Option.isSome_some, hstl, if_true, rotCall_stealLeft, hrot]
   simp
 
 theorem steal_none {h : Heap K V} {xid : Nat} {left right : Option Nat} {rn ln : Int}
@@ -173,7 +179,9 @@ theorem mergeTail_collapse {h1 : Heap K V} {id li : Nat} {sp sl : SNode K V Nat}
     simp only [bind, pure, hp, Option.bind_some, rp.hn]
     have hsb' := hsb
     rw [h0] at hsb'
-    simp [Gen.Tree.mergeRootCheck, Gen.Tree.mergeRootEmpty, h0, hsa, hsb']
+    -- `t.root = left; left.parent = nil`: both statements are in the source
+    simp [Gen.Tree.mergeRootCheck, Gen.Tree.mergeRootEmpty, Gen.Tree.mergeCollapseClearsParent,
+      Gen.Tree.mergeCollapseSetsRoot, h0, hsa, hsb']
   · show hb.size = h1.size
     rw [hsameb.size, hsamea.size]
   · show hb.gen = h1.gen
